@@ -1,0 +1,45 @@
+//go:build verif
+
+package modules
+
+import (
+	"sync/atomic"
+	"time"
+)
+
+// This file is only compiled with the "verif" build tag. It gives external
+// verification harnesses the observation points that in-package tests have.
+
+// VerifSetStopTimeout sets the module stop timeout.
+func VerifSetStopTimeout(d time.Duration) { moduleStopTimeout = d }
+
+// VerifSetStartTimeout sets the module prep/start timeout.
+func VerifSetStartTimeout(d time.Duration) { moduleStartTimeout = d }
+
+// VerifTaskLists returns the lengths of the task queue, the prioritized task
+// queue and the task schedule.
+func VerifTaskLists() (queue, prioritized, schedule int) {
+	queuesLock.Lock()
+	queue = taskQueue.Len()
+	prioritized = prioritizedTaskQueue.Len()
+	queuesLock.Unlock()
+	scheduleLock.Lock()
+	schedule = taskSchedule.Len()
+	scheduleLock.Unlock()
+	return
+}
+
+// VerifMicroTasks returns the global number of running microtasks.
+func VerifMicroTasks() int32 { return atomic.LoadInt32(microTasks) }
+
+// VerifModuleCounts returns the worker, task and microtask counters of a module.
+func (m *Module) VerifModuleCounts() (workers, tasks, microTasks int32) {
+	return atomic.LoadInt32(m.workerCnt), atomic.LoadInt32(m.taskCnt), atomic.LoadInt32(m.microTaskCnt)
+}
+
+// VerifTaskState returns whether the task is executing, cancelled, and in which lists it is.
+func (t *Task) VerifTaskState() (executing, canceled, queued, prioritized, scheduled bool) {
+	t.lock.Lock()
+	defer t.lock.Unlock()
+	return t.executing, t.canceled, t.queueElement != nil, t.prioritizedQueueElement != nil, t.scheduleListElement != nil
+}
